@@ -25,7 +25,7 @@ Definition gcd_special (pf : profile) (numer denom_exp : Z) : res Z :=
   u <- ck_shr pf I128 u utz ;;
   t <- ten_pow (cast U8 denom_exp) ;;
   v <- ck_shr pf I128 t denom_exp ;;
-  g <- gcd_loop 300 pf u v ;;
+  g <- gcd_loop 400 pf u v ;;
   ck_shl pf I128 g (Z.min utz denom_exp).
 
 Definition as_integer_ratio (pf : profile) (d : dec) : res (Z * Z) :=
